@@ -159,19 +159,26 @@ def extend (c : Cols) : List Cols → Out
     let r := push c e
     if r.panicked then r else extend r.st es
 
-/-- `resize(new_len, value)` (Clone API): per-field `resize(new_len, value.f)`.
-    Growing by `m` clones the value `m - 1` times per field and moves it in last;
-    otherwise the suffix and the value are destroyed field by field. -/
-def resize (c : Cols) (n : Nat) (e : Cols) : Out :=
-  let r := c.apply2 (resizeOp n) e
-  let len := c.firstLen
-  { st := r.st, panicked := r.panicked,
-    ev := { drops := r.out.flat,
-            clones := if n > len then (List.replicate (n - len - 1) e.flat).flatten else [] } }
+/-- the element at position `i` as a one-row tree (what `slice.get(i).unwrap().to_owned()` rebuilds) -/
+def rowCols (c : Cols) (i : Nat) : Cols := (c.apply2 (pickOp [i]) (noArgs c)).out
 
-/-- `extend_from_slice(other)`: per-field `extend_from_slice`, cloning every value -/
+/-- `resize(new_len, value)` (Clone API), element by element: growing reserves, pushes
+    `new_len - len - 1` clones of the value (`value.as_ref().to_owned()`) and then the value
+    itself; otherwise `truncate(new_len)` and the value is dropped. -/
+def resize (drops : Bool) (c : Cols) (n : Nat) (e : Cols) : Out :=
+  let len := c.firstLen
+  if n > len then
+    let r := extend c (List.replicate (n - len) e)
+    { st := r.st, panicked := r.panicked,
+      ev := { clones := (List.replicate (n - len - 1) e.flat).flatten } }
+  else
+    let t := truncate drops c n
+    { st := t.st, panicked := t.panicked, ev := t.ev ++ dropWhole drops e }
+
+/-- `extend_from_slice(other)`: `reserve(other.len())`, then `push(item.to_owned())` for every
+    element of `other` -/
 def extendFromSlice (c src : Cols) : Out :=
-  let r := c.apply2 extendCloneOp src
+  let r := extend c ((List.range src.firstLen).map (rowCols src))
   { st := r.st, panicked := r.panicked, ev := { clones := src.flat } }
 
 /-- `to_vec()` of a slice: per-field `to_vec()` -/
